@@ -28,7 +28,8 @@ def strategy_(draw, tier):
     mdl = draw(gen.any_model_st(max_modes=4, beta_lo=0.5, beta_hi=50.0))
     N = M.n_modes(mdl["sites"])
     ix = st.integers(0, N - 1)
-    comp = draw(st.one_of(st.tuples(ix, ix, ix, ix), st.tuples(ix, ix).map(lambda t: (t[0], t[1], t[0], t[1])), st.tuples(ix, ix).map(lambda t: (t[0], t[1], t[1], t[0]))))
+    comp = draw(st.one_of(st.tuples(ix, ix, ix, ix), st.tuples(ix, ix).map(lambda t: (t[0], t[1], t[0], t[1])), st.tuples(ix, ix).map(lambda t: (t[0], t[1], t[1], t[0])),
+                          gen.chi_quad_st(N)))
     wmax = 4 if tier == "quick" else 8
     # the same Vertex4 object is re-computed with a sequence of window sizes (growing, shrinking, repeated, zero)
     Ws = draw(st.lists(st.integers(0, wmax), min_size=1, max_size=4))
